@@ -17,6 +17,7 @@ import (
 
 	"verif/internal/core"
 	"verif/internal/lang"
+	"verif/internal/mon"
 )
 
 // ImplResult is what the real library did for one input.
@@ -110,6 +111,9 @@ var (
 // (Single goroutine only.)
 func InterpretReused(src []byte) ImplResult {
 	primeReused()
+	if h := core.Hash(src); h%16 == 3 {
+		EarlierCall(h >> 4)
+	}
 	var r ImplResult
 	var out, lg bytes.Buffer
 	reOut.w, reLog.w = &out, &lg
@@ -137,6 +141,9 @@ func primeReused() {
 // (Single goroutine only.)
 func ParseOnly(src []byte, name string) (prog *bcl.Prog, log string, err error, pan, stack string) {
 	primeReused()
+	if h := core.Hash(src); h%16 == 5 {
+		EarlierCall(h >> 4)
+	}
 	var lg, out bytes.Buffer
 	reOut.w, reLog.w = &out, &lg
 	pan, stack = protect(func() {
@@ -481,4 +488,82 @@ func detailOf(cs *Case, r ImplResult) map[string]any {
 	}
 	d["ref_verdict"] = fmt.Sprintf("%s at token %d (%s)", cs.Verdict.Kind, cs.Verdict.At, cs.Verdict.Why)
 	return d
+}
+
+// ---- calls made earlier in the same process
+
+type earlierTarget struct {
+	Name                                   string
+	A, B, C, D, E, F, G, H, I, J, K, L, M int
+	Sub                                    struct{ A, B, C, D, E, F, G, H, I, J int }
+}
+
+var earlierCalls int64
+
+// EarlierCall makes one library call of another kind in front of the call under observation (a failed
+// parse of a long input, a long successful run, a file parse cut off by a read error, a runtime error deep in
+// nested blocks, an Unmarshal of wide blocks that succeeds or fails, a truncated load, a failed Dump): whatever
+// the library keeps from one call to the next must not show in the next call. Which one is made is
+// determined by the key (normally the input of the observed call), so a case replays the same way.
+func EarlierCall(key uint64) {
+	earlierCalls++
+	lines := 70 + int(key>>8)%260
+	var b strings.Builder
+	switch key % 8 {
+	case 0: // a failed parse of a long input (errors at both ends)
+		b.WriteString("print )\n")
+		for k := 0; k < lines; k++ {
+			fmt.Fprintf(&b, "var v%d = %d # filler\n", k, k)
+		}
+		b.WriteString("var v0 = 1\nprint (\n")
+		protect(func() { bcl.Parse([]byte(b.String()), "earlier", bcl.OptLogger(io.Discard), bcl.OptOutput(io.Discard)) })
+	case 1: // a long successful run
+		for k := 0; k < lines; k++ {
+			fmt.Fprintf(&b, "def t%d \"n%d\" { f%d = %d; s = \"v%d\" + %d }\n", k%3, k, k, k, k, k)
+		}
+		b.WriteString("bind t1:all -> slice\n")
+		protect(func() { bcl.Interpret([]byte(b.String()), bcl.OptLogger(io.Discard), bcl.OptOutput(io.Discard)) })
+	case 2: // a file parse of a long failing input, cut off by a read error
+		for k := 0; k < lines; k++ {
+			fmt.Fprintf(&b, "print %d +\n", k)
+		}
+		sc := mon.NewScript("earlier.bcl", []byte(b.String()), []mon.Step{{N: 100}, {N: 1000}, {N: 50, Err: mon.ErrInjected}})
+		protect(func() { bcl.ParseFile(sc, bcl.OptLogger(&mon.LockedWriter{}), bcl.OptOutput(&mon.LockedWriter{})) })
+		mon.WaitQuiescent(14)
+	case 3: // a runtime error deep in nested blocks, locals alive
+		b.WriteString("var a = 1\n")
+		depth := 2 + int(key>>8)%13
+		for k := 0; k < depth; k++ {
+			fmt.Fprintf(&b, "def d%d { var l%d = %d\n x%d = l%d\n", k, k, k, k, k)
+		}
+		b.WriteString("y = 1 / 0\n" + strings.Repeat("}\n", depth))
+		protect(func() { bcl.Interpret([]byte(b.String()), bcl.OptLogger(io.Discard), bcl.OptOutput(io.Discard)) })
+	case 4, 5: // Unmarshal of wide blocks, succeeding (4) or failing at the last field (5)
+		b.WriteString("def earlier_target \"n\" { a=1; b=2; c=3; d=4; e=5; f=6; g=7; h=8; i=9; j=10; k=11; l=12\n def sub { a=1; b=2; c=3; d=4; e=5; f=6; g=7; h=8; i=9; j=10 }\n")
+		if key%8 == 5 {
+			b.WriteString("m = \"not an int\" ")
+		}
+		b.WriteString("}\nbind earlier_target -> struct\n")
+		var t earlierTarget
+		protect(func() { bcl.Unmarshal([]byte(b.String()), &t, bcl.OptLogger(io.Discard), bcl.OptOutput(io.Discard)) })
+	case 6, 7: // a dump cut short loaded (6); a Dump into a writer that fails (7)
+		for k := 0; k < lines; k++ {
+			fmt.Fprintf(&b, "print \"%s\" + %d\n", strings.Repeat("s", k%120), k)
+		}
+		var p *bcl.Prog
+		protect(func() { p, _ = bcl.Parse([]byte(b.String()), "earlier", bcl.OptLogger(io.Discard), bcl.OptOutput(io.Discard)) })
+		if p == nil {
+			return
+		}
+		if key%8 == 7 {
+			protect(func() { p.Dump(&failingWriter{limit: 40 + int(key>>8)%400}) })
+			return
+		}
+		var d bytes.Buffer
+		protect(func() { p.Dump(&d) })
+		if d.Len() > 10 {
+			cut := 5 + int(key>>8)%(d.Len()-5)
+			protect(func() { bcl.LoadProg(bytes.NewReader(d.Bytes()[:cut]), "earlier", bcl.OptLogger(io.Discard), bcl.OptOutput(io.Discard)) })
+		}
+	}
 }
